@@ -167,6 +167,31 @@ func chainText(vals []float64, ops []string) string {
 
 func c13Engine(c *vk.Case, text string) (ov, error) {
 	T := metricT0 + 10e9
+	if len(text)%5 == 0 {
+		// a fifth of the chains run as a 3-step range query: every step must report the same value
+		res, err := evalQuery(&MemQuerier{ErrAfter: -1}, text, EvalP{Start: T, End: T + 4e9, Step: 2 * time.Second})
+		c.Eval(1)
+		c.Count("range_mode_chains", 1)
+		if err != nil {
+			return ov{}, err
+		}
+		if len(res.Series) == 0 {
+			return ov{}, nil
+		}
+		if len(res.Series) != 1 || len(res.Series[0].Labels) != 0 {
+			return ov{}, fmt.Errorf("unexpected result shape %+v", res)
+		}
+		pts := res.Series[0].Points
+		if len(pts) != 3 {
+			return ov{}, fmt.Errorf("range query over 3 steps returned %d points: %+v", len(pts), pts)
+		}
+		for _, p := range pts[1:] {
+			if !vk_almost(p.V, pts[0].V, 0) {
+				return ov{}, fmt.Errorf("steps of a constant expression differ: %+v", pts)
+			}
+		}
+		return ov{true, pts[0].V}, nil
+	}
 	res, err := evalQuery(&MemQuerier{ErrAfter: -1}, text, EvalP{Start: T, End: T})
 	c.Eval(1)
 	if err != nil {
